@@ -69,8 +69,8 @@ func CHUNK_json(h *rt.H)   { chunkBytes(h, jsonCodec) }
 // repChoice: the representation choices of a shaped document; a second document of
 // the same stream reuses the first one's choices (only the shapes multiply).
 type repChoice struct {
-	set                         bool
-	rep, container, indef, ws int
+	set                              bool
+	rep, container, indef, ws, esc int
 }
 
 // shapedDoc builds a valid document of the codec from a generated value with
@@ -89,6 +89,7 @@ func shapedDocRep(h *rt.H, c *codec, r *repChoice) []byte {
 			r.rep, r.container = h.Choose("rep", 0, 4), h.Choose("container", 0, 3)
 		default:
 			r.ws = h.Choose("ws", 0, 4)
+			r.esc = h.Choose("esc", 0, h.Param("ESC", 0))
 		}
 	}
 	switch c {
@@ -111,7 +112,7 @@ func shapedDocRep(h *rt.H, c *codec, r *repChoice) []byte {
 		}
 		return gen.EncodeUBJSON(h, v, o, nil)
 	}
-	return gen.JSONText(h, v, gen.JSONOpts{WS: r.ws}, nil)
+	return gen.JSONText(h, v, gen.JSONOpts{WS: r.ws, Esc: r.esc}, nil)
 }
 
 // chunkShape: a shaped valid document x (every single cut position | all single bytes).
